@@ -166,15 +166,24 @@ impl Check for Convergence {
         let en_down = rng.chance(1, 2);
         let en_win = rng.chance(3, 4);
         let en_rr = rng.chance(1, 3);
+        // 0 no policy; 1 a global export policy from the start (reject community 65000:1, MED 77 on the rest);
+        // 2 the same, and export / import policies switched on and off during the history, each switch
+        // followed by the soft reset an operator issues for it
+        let xpol = *rng.pick(&[0u64, 0, 1, 2, 2]);
         let n_ops = rng.range(4, if thorough { 60 } else { 30 });
         let mut ops = Vec::new();
         let src_roles: Vec<Role> = sources.iter().map(|s| Role::from_u(s.i("role", 0) as u64)).collect();
         for _ in 0..n_ops {
             let s = rng.usize_below(n_src);
             let o = rng.usize_below(n_obs);
-            match rng.weighted(&[40, 16, if en_win { 14 } else { 0 }, 4, if en_down { 5 } else { 0 }, 7, if en_rr { 3 } else { 0 }, 3]) {
+            match rng.weighted(&[40, 16, if en_win { 14 } else { 0 }, 4, if en_down { 5 } else { 0 }, 7, if en_rr { 3 } else { 0 }, 3, if xpol == 2 { 5 } else { 0 }]) {
+                8 => ops.push(jarr!["pol", rng.below(2), rng.coin()]),
                 0 => {
-                    let spec = gen_rspec(&mut rng, src_roles[s], asn_for(src_roles[s], s));
+                    let mut spec = gen_rspec(&mut rng, src_roles[s], asn_for(src_roles[s], s));
+                    if xpol != 0 && rng.chance(1, 3) {
+                        // the community the policies look at: a replacement flips exportability
+                        spec.com = vec![0xfde8_0001];
+                    }
                     let pid = if sources[s].get("addpath_rx").map(|b| b.as_bool()).unwrap_or(false) { rng.range(1, 2) } else { 0 };
                     ops.push(jarr!["ann", s, rng.below(n_pfx), pid, spec.to_json()]);
                 }
@@ -202,7 +211,7 @@ impl Check for Convergence {
             }
         }
         jobj! {
-            "shards" => rng.range(1, 3), "hold" => *rng.pick(&[0u64, 0, 30, 90]), "confed" => confed,
+            "shards" => rng.range(1, 3), "hold" => *rng.pick(&[0u64, 0, 30, 90]), "confed" => confed, "xpol" => xpol,
             "sources" => Json::Arr(sources), "observers" => Json::Arr(observers), "pipes" => Json::Arr(pipes),
             "sub" => rng.next_u64() >> 1, "ops" => Json::Arr(ops)
         }
@@ -239,7 +248,7 @@ impl Check for Convergence {
 
     fn info(&self) -> CheckInfo {
         CheckInfo {
-            rule: "1-3 source speakers (roles eBGP/iBGP/RR-client/RS-client/confed, optional add-path towards the DUT) and 1-2 observers (any role, send-max 1-3) on real sessions; history of announce / replace / withdraw / source crash (FIN, RST) / reconnect / route-refresh over 2-8 prefixes; the observer's receive window is opened and closed by the schedule, pipes have seeded latency, fragmentation and capacity, 1-3 shards. At check points: windows opened, quiescence, an identically configured twin connects and receives its initial dump; mirror(observer) must equal mirror(twin) (prefix, path id, attributes, next hop). non-trivial = at least one RIB change was delivered to an observer while its window was closed, or a check compared a non-empty mirror; distinct = hash of the seam-event sequence (which connection read/wrote how much, in order)".into(),
+            rule: "1-3 source speakers (roles eBGP/iBGP/RR-client/RS-client/confed, optional add-path towards the DUT) and 1-2 observers (any role, send-max 1-3) on real sessions; history of announce / replace / withdraw / source crash (FIN, RST) / reconnect / route-refresh over 2-8 prefixes; in 3 of 5 runs a global export policy (reject community 65000:1, set MED on the rest) so that a replacement can make a route non-exportable, in 2 of 5 also export and import policies switched on and off during the history, each switch followed by the operator's soft reset (out towards the observers, in for the sources); the observer's receive window is opened and closed by the schedule, pipes have seeded latency, fragmentation and capacity, 1-3 shards. At check points: windows opened, quiescence, an identically configured twin connects and receives its initial dump; mirror(observer) must equal mirror(twin) (prefix, path id, attributes, next hop). non-trivial = at least one RIB change was delivered to an observer while its window was closed, or a check compared a non-empty mirror; distinct = hash of the seam-event sequence (which connection read/wrote how much, in order)".into(),
             components_real: vec!["accept_connection, PeerSession::{run,session_loop,run_select,rx_msg,rx_update,handle_prefix_update,do_route_refresh,on_established,flush_tx}".into(), "export::process_nlri_change, ExportMap, peer_tx::PendingTx".into(), "TableManager, table::Table".into(), "fsm::PeerFsm, packet::PeerCodec (both directions)".into(), "GrpcService::start_bgp".into()],
             components_stubbed: vec!["TCP, clock, listener/dispatch loop, remote speakers (scripted; decode with the repository codec negotiated from their side + an independent frame walker)".into()],
             assumptions: vec!["observers and twins announce nothing, so echo suppression cannot differ between them".into(), "a mirror bug shared by encoder and decoder is invisible (framing is checked independently)".into()],
@@ -279,6 +288,20 @@ async fn run(case: Json, tol: Tolerate) -> Outcome {
     let pipes: Vec<PipeOpts> = case.get("pipes").map(|p| p.arr().iter().map(pipe_opts_from_json).collect()).unwrap_or_default();
     let pipe = |k: usize| -> PipeOpts { pipes.get(k).cloned().unwrap_or_default() };
     let mut t = Topo::new(&wcfg, nodes, vec![Family::IPV4], hold).await;
+    let xpol = case.i("xpol", 0);
+    let policy_of = |dir: table::PolicyDirection| -> Arc<table::PolicyAssignment> {
+        let mut pt = table::PolicyTable::new();
+        pt.add_defined_set(table::DefinedSetConfig::Community { name: "marked".into(), patterns: vec!["65000:1".into()] }).unwrap();
+        pt.add_statement("drop-marked", vec![table::ConditionConfig::CommunitySet("marked".into(), table::MatchOption::Any)], Some(table::Disposition::Reject), table::Actions::default()).unwrap();
+        let mut a = table::Actions::default();
+        a.med = Some(table::MedAction { action_type: table::MedActionType::Replace, value: 77 });
+        pt.add_statement("mark", vec![], None, a).unwrap();
+        pt.add_policy("p", vec!["drop-marked".into(), "mark".into()]).unwrap();
+        pt.add_assignment("global", dir, table::Disposition::Accept, vec!["p".into()]).unwrap().1
+    };
+    if xpol != 0 {
+        t.w.tables.export_policy.store(Some(policy_of(table::PolicyDirection::Export)));
+    }
     for i in 0..n_src + n_obs {
         t.connect(i, &pipe(2 * i), &pipe(2 * i + 1)).await;
     }
@@ -382,6 +405,22 @@ async fn run(case: Json, tol: Tolerate) -> Outcome {
                     c.ctl().set_window(false);
                     out.hit("fault.window-closed-before-initial-dump");
                 }
+                t.w.quiesce().await;
+            }
+            "pol" => {
+                // the operator switches the global export (0) or import (1) policy on or off and issues
+                // the soft reset that goes with it: out towards every observer, in for every source
+                let import = op.at(1).as_u64() == 1;
+                let on = op.at(2).as_bool();
+                let dir = if import { table::PolicyDirection::Import } else { table::PolicyDirection::Export };
+                let slot = if import { &t.w.tables.import_policy } else { &t.w.tables.export_policy };
+                slot.store(if on { Some(policy_of(dir)) } else { None });
+                let targets: Vec<IpAddr> = if import { (0..n_src).map(|i| t.nodes[i].cfg.addr).collect() } else { (n_src..n_src + n_obs).map(|i| t.nodes[i].cfg.addr).collect() };
+                for a in targets {
+                    let req = api::ResetPeerRequest { address: a.to_string(), soft: true, direction: if import { api::reset_peer_request::Direction::In as i32 } else { api::reset_peer_request::Direction::Out as i32 }, ..Default::default() };
+                    let _ = t.w.grpc.reset_peer(tonic::Request::new(req)).await;
+                }
+                out.hit(if import { "op.import-policy-switched+soft-reset-in" } else { "op.export-policy-switched+soft-reset-out" });
                 t.w.quiesce().await;
             }
             "rr" => {
